@@ -41,7 +41,8 @@ def c03(tier, seed):
         {"type": "i2s", "name": "random sessions", "spec": "Trace_Evaluator",
          "cmd": ["drive", "evaluator", "{seed}", q(tier, 300, 3000), "{trace}", "nonan"]},
         session_step(tier, "query"),
-    ]
+    ] + ([{"type": "apalache", "module": "AP_Evaluator", "inv": "Inv", "length": 6,
+           "what": "<= 4 breakpoints and every query arbitrary integers, histories of <= 6 queries"}] if tier == "thorough" else [])
 
 
 # ------------------------------------------------------------------------------------------------ C12
@@ -65,7 +66,8 @@ def c13(tier, seed):
         {"type": "i2s", "name": "drive merge", "spec": "Trace_Merge",
          "cmd": ["drive", "merge", "{seed}", q(tier, 300, 3000), "{trace}"]},
         session_step(tier, "combine"),
-    ]
+    ] + ([{"type": "apalache", "module": "AP_Merge", "inv": "Inv", "length": 6,
+           "what": "operands of <= 3 pieces with arbitrary integer breakpoints, arbitrary integer argument"}] if tier == "thorough" else [])
 
 
 # ------------------------------------------------------------------------------------------------ C16
